@@ -4,6 +4,7 @@ EXTENDS Integers, Sequences, FiniteSets, TLC, Json, IOUtils, F64, Fit
 
 Obs == ndJsonDeserialize(IOEnv.VH_OBS)
 KF == FOfDec(IOEnv.VH_KF)
+KS == FOfDec(IOEnv.VH_KS)
 
 LinearBad(o) ==
   IF o.st = "panic" THEN {"never_panics"}
@@ -34,14 +35,22 @@ LmBadOf(o, st, params) ==
     LET p == params
         target == IF IsLinearModel(o.model) THEN LinearLsq(o.model, o.xs, o.ys, o.v) ELSE o.truth
         scale == FAdd(F1, FMaxAbs(target))
-        \* accuracy governed by the tolerance and by the conditioning of the design: the stopping rule is on the
-        \* change of the sum of squares S, and S - S_min ~ d^T (J^T J) d for a parameter error d, so parameters are
-        \* accurate to about sqrt(tol / lambda_min(J^T J)); lam is a proven lower bound of lambda_min at the target,
-        \* capped at 1; designs with lam < 1e-3 are not "well-conditioned" and only termination / finiteness are judged
-        lam == FMin(F1, LambdaMinLower(NormalMatrix(o.model, o.xs, target)))
+        judged == IsLinearModel(o.model) \/ o.recover
+        \* "accuracy governed by the tolerance", in the quantity the stopping rule controls: the routine stops when the
+        \* residual sum of squares S changes by less than tol, so S at the result may exceed its minimum (S at the
+        \* least-squares / generating parameters) by a small multiple of tol - whatever the conditioning of the design
+        smin == SumSq(o.model, o.xs, o.ys, target)
+        excess == FSub(SumSq(o.model, o.xs, o.ys, p), smin)
+        sbound == FAdd(FMul(KS, o.tol), FMul(FMul(FOfInt(64), FEps), FAdd(F1, smin)))
+        \* and in the parameters: S - S_min ~ d^T (J^T J) d for a parameter error d, so parameters are accurate to about
+        \* sqrt(tol / lambda_min(J^T J)); lam is half the inverse-iteration estimate of lambda_min at the target (never
+        \* below the proven AM-GM lower bound); designs with lam < 1e-3 are not "well-conditioned" and are judged by
+        \* the sum of squares only
+        lam == LambdaMinWorking(NormalMatrix(o.model, o.xs, target))
         wellc == FLe(FOfDec("1e-3"), lam)
         bound == FMul(FMul(KF, scale), FAdd(FSqrt(FDiv(o.tol, lam)), FOfDec("1e-7")))
     IN (IF ~VFinite(p) THEN {"fit_result_is_finite"} ELSE {})
+       \cup (IF VFinite(p) /\ judged /\ ~FLe(excess, sbound) THEN {"sum_of_squares_within_tolerance_of_its_minimum"} ELSE {})
        \cup (IF VFinite(p) /\ wellc /\ IsLinearModel(o.model) /\ ~FLe(VDistInf(p, target), bound) THEN {"linear_model_gets_the_least_squares_parameters"} ELSE {})
        \cup (IF VFinite(p) /\ wellc /\ ~IsLinearModel(o.model) /\ o.recover /\ ~FLe(VDistInf(p, target), bound)
                THEN {"model_generated_data_recover_the_true_parameters"} ELSE {})
@@ -64,7 +73,7 @@ Check(o) == IF o.variant = "linear" THEN LinearBad(o) ELSE LmBad(o)
 \* enough for the accuracy conjuncts to be judged (vacuity guard, reported in the evidence)
 WellCond(o) ==
   LET target == IF IsLinearModel(o.model) THEN LinearLsq(o.model, o.xs, o.ys, o.v) ELSE o.truth
-  IN FLe(FOfDec("1e-3"), LambdaMinLower(NormalMatrix(o.model, o.xs, target)))
+  IN FLe(FOfDec("1e-3"), LambdaMinWorking(NormalMatrix(o.model, o.xs, target)))
 VARIABLES i, nok, nwc
 Init == i = 0 /\ nok = 0 /\ nwc = 0
 Next == /\ i < Len(Obs)
